@@ -51,13 +51,31 @@ func spellingRule(c *Ctx, rule string, rows []scanRow, tt *tokenTable) {
 			produced[sp] = true
 		}
 	}
+	// first runes whose outcome was not extracted (the case delegates to a helper
+	// that returns only the token, say): spellings starting there are undecided
+	opaque := map[rune]bool{}
+	for _, r := range rows {
+		if r.kind == "none" || (r.kind == "token" && r.tok < 0) {
+			opaque[r.c0] = true
+		}
+	}
+	verdict := func(sp, key, why string) {
+		switch {
+		case produced[sp]:
+			c.OK(rule, key, token.NoPos, "produced")
+		case len(sp) > 0 && opaque[rune(sp[0])]:
+			c.Unk(rule, key, token.NoPos, fmt.Sprintf("the dispatch for %q was not extracted (it leaves Scan through a helper)", sp[0]))
+		default:
+			c.Bad(rule, key, token.NoPos, why)
+		}
+	}
 	for sp := range precedenceSpec {
 		if sp == "AND" || sp == "OR" {
 			continue
 		}
-		c.Check(produced[sp], rule, "Scanner.Scan: operator "+sp+" is produced", token.NoPos, "no rune sequence is scanned as "+sp)
+		verdict(sp, "Scanner.Scan: operator "+sp+" is produced", "no rune sequence is scanned as "+sp)
 	}
-	c.Check(produced["<>"], rule, "Scanner.Scan: operator <> is produced", token.NoPos, "`<>` is not scanned as !=")
+	verdict("<>", "Scanner.Scan: operator <> is produced", "`<>` is not scanned as !=")
 	c.Floor(rule, n, 40)
 }
 
